@@ -4,6 +4,7 @@ import (
 	"context"
 	"fmt"
 	"math/rand"
+	"strconv"
 	"strings"
 	"sync"
 	"time"
@@ -585,12 +586,41 @@ type Cut struct {
 // idle feeder that is stopped), then one start that replays the rest of the stream.  modes[i]
 // is the replay mode start i is configured with ("" = the mode of the previous start): a
 // different one makes the start-up bookkeeping switch / migrate the namespace.
+// skewMtimes returns a copy of the bookkeeping writes with every "mtime" field of an HSET / HMSET
+// raised by d (nanoseconds, the unit the tool stores).
+func skewMtimes(apps []fakeredis.App, d time.Duration) []fakeredis.App {
+	out := make([]fakeredis.App, len(apps))
+	for i, a := range apps {
+		out[i] = a
+		if (a.Cmd != "HSET" && a.Cmd != "HMSET") || len(a.Args) < 3 {
+			continue
+		}
+		args := append([][]byte(nil), a.Args...)
+		for j := 1; j+1 < len(args); j += 2 {
+			if strings.HasSuffix(string(args[j]), "mtime") {
+				if v, err := strconv.ParseInt(string(args[j+1]), 10, 64); err == nil && v > 0 {
+					args[j+1] = []byte(strconv.FormatInt(v+int64(d), 10))
+				}
+			}
+		}
+		out[i].Args = args
+	}
+	return out
+}
+
 func (e *Env) Restart(r *rand.Rand, p *RunLog, cut Cut, idleStarts int, modes []config.ReplayMode, path string) (*RunLog, string) {
 	ctx := context.Background()
 	state := p.StateAt(cut.N)
 	tgt := e.Factory(e.targetOptions())
 	defer tgt.Close()
-	tgt.Replay(reservedWrites(state))
+	stored := reservedWrites(state)
+	if mr := rand.New(rand.NewSource(int64(cut.N)*7919 + int64(len(state)))); mr.Intn(4) == 0 {
+		// the run that wrote the bookkeeping lived on a host whose wall clock is ahead of the host
+		// that starts now (by two minutes, or by an hour): every stored mtime lies in the starting
+		// host's future.  mtime is a value the writer sends; order among the records is unchanged
+		stored = skewMtimes(stored, []time.Duration{2 * time.Minute, time.Hour}[mr.Intn(2)])
+	}
+	tgt.Replay(stored)
 	l := &RunLog{Depth: p.Depth + 1, Path: path, StartApps: state, SeqBase: cut.N, First: cut.N, FloorDone: cut.FloorDone, FloorCut: cut.FloorCut, ModeAtCut: cut.Mode, Switched: cut.Switched, BaseMode: e.C.Mode}
 	prev := cut.Mode
 	if len(cut.Where) > 0 {
